@@ -320,7 +320,9 @@ func (w *World) emit(o *Outcome) {
 	}
 }
 
-// guard runs f with panics recovered and the arena audited.
+// Guard runs f with panics recovered and the arena audited.
+func (w *World) Guard(o *Outcome, f func()) { w.guard(o, f) }
+
 func (w *World) guard(o *Outcome, f func()) {
 	defer func() {
 		if r := recover(); r != nil {
